@@ -90,6 +90,7 @@ def arc_centre(x1, y1, x2, y2, r, large, sweep):
 
 class Check(PropertyCheck):
     id = "C14"
+    thorough_mult = 3
     lean_modules = ["Svgbob.Properties.C14"]
     assumptions = [
         "whole-pipeline model tied to the implementation end to end (bytes)",
@@ -98,7 +99,7 @@ class Check(PropertyCheck):
 
     def rule(self):
         return ("lines of length 1..40 in 8 directions x arrow characters (> < ^ v V and triangle glyphs) x bullets (* o O at "
-                "an end) x offsets; rounded outlines with a stub attached, sizes 1..30 x 1..15, corner styles . , ' `; "
+                "an end, at both ends, `*` in the middle of a horizontal line) x offsets; rounded outlines with a stub attached, sizes 1..30 x 1..15, corner styles . , ' `; "
                 "non-trivial = every case, distinct by (kind, direction, length, char, offset)")
 
     def run_cases(self):
@@ -139,6 +140,7 @@ class Check(PropertyCheck):
         dis = []
         texts = [draw_run(d, ln, ch, k, n)[0] for (_, d, ln, ch, k, n) in self.run_cases()[:: self.scale(3, 1)]]
         texts += [self.corner_text(*c) for c in self.corner_cases()[:: self.scale(2, 1)]]
+        texts += [self.multi_bullet_text(*c)[0] for c in self.multi_bullet_cases()]
         cases = [(t, backend.Settings(b=False, s=False, d=False), "settings") for t in texts]
         res = backend.run_full(cases)
         for c, r in zip(cases, res):
@@ -150,6 +152,72 @@ class Check(PropertyCheck):
                 dis.append(Disagreement("L3 full pipeline bytes", {"input": c[0], "input_hex": hx(c[0])},
                                         str(backend.first_difference(r["impl"], r["model"]))[:600], ""))
         return dis
+
+    def multi_bullet_cases(self):
+        """lines with a bullet at each end (any direction) and horizontal lines through a `*`"""
+        out = []
+        for d in DIRS:
+            for ln in [3, 4, self.rng.range(5, 12)]:
+                for b1 in "*oO":
+                    b2 = self.rng.choice("*oO")
+                    out.append(("two", d, ln, b1, b2, self.rng.below(10), self.rng.below(5)))
+        for ln in [2, 3, 5, 9]:
+            for k in (0, self.rng.below(12)):
+                out.append(("mid", "right", ln, "*", "*", k, self.rng.below(4)))
+        return out
+
+    @staticmethod
+    def multi_bullet_text(kind, d, ln, b1, b2, k, n):
+        """returns (text, [(cell, bullet char)])"""
+        if kind == "two":
+            t, cells, endc = draw_run(d, ln + 1, b1, k, n)
+            rows = [list(r) for r in t.split("\n")]
+            rows[cells[0][1]][cells[0][0]] = b2
+            return "\n".join("".join(r) for r in rows), [(endc, b1), (cells[0], b2)]
+        row = " " * k + "-" * ln + "*" + "-" * ln
+        return "\n" * n + row, [((k + ln, n), "*")]
+
+    def oracle_multi_bullets(self, cases):
+        """every bullet on a line carries its marker on a line ending in the centre of its cell; no bullet is left as
+        a bare circle or as text"""
+        fails = []
+        built = [self.multi_bullet_text(*c) for c in cases]
+        res = common.run_impl("lib", ["%d settings b=0,s=0,d=0 %s" % (i, hx(b[0])) for i, b in enumerate(built)])
+        for i, c in enumerate(cases):
+            self.evaluations += 1
+            t, bullets = built[i]
+            self.nontrivial.add(("multi",) + tuple(c))
+            case = {"input": t, "input_hex": hx(t), "kind": "multi", "case": list(c)}
+            r = res[str(i)]
+            if not r.startswith("ok "):
+                fails.append(Failure("conversion did not return", case))
+                continue
+            try:
+                root = svgcanon.parse(unhx(r[3:]))
+            except svgcanon.ParseError:
+                continue
+            els = [e for _, e in svgcanon.flat_geometry(root)]
+            if any(e.tag == "text" for e in els) or any(e.tag == "circle" for e in els):
+                fails.append(Failure("a bullet on a line is left as a bare circle or as text", case,
+                                     {"elements": [(e.tag, e.attrs, e.text) for e in els][:6]}))
+                continue
+            for (cell, ch) in bullets:
+                want = {"*": "circle", "o": "open_circle", "O": "big_open_circle"}[ch]
+                centre = cell_anchor(cell, "centre")
+                hit = 0
+                for e in els:
+                    if e.tag != "line":
+                        continue
+                    cl = e.attrs.get("class", "").split()
+                    if ("end_marked_" + want) in cl and (F(e.attrs["x2"]), F(e.attrs["y2"])) == centre:
+                        hit += 1
+                    if ("start_marked_" + want) in cl and (F(e.attrs["x1"]), F(e.attrs["y1"])) == centre:
+                        hit += 1
+                if hit < 1:
+                    fails.append(Failure("bullet %r has no %s marker on a line ending in the centre of its cell" % (ch, want), case,
+                                         {"centre": centre, "lines": [(e.attrs.get("class"), e.attrs.get("x1"), e.attrs.get("y1"), e.attrs.get("x2"), e.attrs.get("y2")) for e in els if e.tag == "line"][:6]}))
+                    break
+        return fails
 
     def oracle_runs(self, cases):
         fails = []
@@ -273,9 +341,12 @@ class Check(PropertyCheck):
     def search(self, boost=1):
         fails = self.oracle_runs(self.run_cases())
         fails += self.oracle_corners(self.corner_cases())
+        fails += self.oracle_multi_bullets(self.multi_bullet_cases())
         return fails
 
     def replay_case(self, case):
+        if case.get("kind") == "multi":
+            return self.oracle_multi_bullets([tuple(case["case"])])
         if case.get("kind") == "corner":
             return self.oracle_corners([tuple(case["params"])])
         return self.oracle_runs([(case["kind"], case["dir"], case["len"], case["char"], case["k"], case["n"])])
